@@ -10,9 +10,10 @@ VARIABLE c
 
 Kinds == {"struct", "generic_struct", "unit_struct", "newtype_struct", "tuple_struct_generic", "alias", "generic_alias",
           "unit_enum", "enum_newtype", "enum_struct", "enum_mixed", "generic_enum", "enum_tag_dashed", "enum_tag_kw", "const"}
+\* unicode: variant wire names with a combining mark, a variation selector, a zero-width joiner, a non-ASCII letter
 \* kw_dashed / kebab_kw: keyword members next to dashed members in the same item (a dashed key switches Swift and Kotlin to a
 \* different printing path - CodingKeys / @SerialName - for all the members of the item)
-Namings == {"plain", "kw_swift", "kw_py", "kw_both", "kw_type", "kw_dashed", "kebab_kw", "dashed", "rename_all_kebab", "rename_all_upper", "digit", "quote", "single_letter"}
+Namings == {"plain", "kw_swift", "kw_py", "kw_both", "kw_type", "kw_dashed", "kebab_kw", "dashed", "rename_all_kebab", "rename_all_upper", "digit", "quote", "unicode", "single_letter"}
 TypeFeatures == {"prim", "option", "vec_option", "map", "user", "generic", "override_lang", "serialized_as", "unit", "array", "nested", "boxed_self", "i64", "default_attr"}
 Decos == {"none", "swift_deco", "swift_decos2", "kotlin_deco", "redacted", "constraints", "item_serialized_as", "readonly"}
 Docs == {"none", "all", "multiline"}
@@ -40,7 +41,7 @@ InScope(r) ==
     /\ (~HasMembers(r.kind) => (r.n = 0 /\ r.naming \in {"plain", "kw_type"}))
     /\ (~HasTypes(r.kind) => r.tyf = "prim")
     /\ (r.tyf = "generic" => IsGeneric(r.kind))
-    /\ (r.naming \in {"digit", "quote"} => IsEnum(r.kind))          \* promised for variant names only (`_` prefix, escaped literal)
+    /\ (r.naming \in {"digit", "quote", "unicode"} => IsEnum(r.kind))          \* promised for variant names only (`_` prefix, escaped literal)
     /\ (r.deco = "constraints" => IsGeneric(r.kind))
     /\ (r.deco = "readonly" => r.kind \in {"struct", "generic_struct", "enum_struct", "enum_mixed"})
     /\ (r.kind = "const" => (r.deco = "none"))
